@@ -32,7 +32,7 @@ fn gen_script(r: &mut Rng) -> Value {
     let mut ops = vec![];
     for _ in 0..n {
         let name = r.pick(&pool).to_string();
-        let op = ["alias", "alias", "unalias", "unalias", "remove", "fn", "defined", "call"][r.below(8)];
+        let op = ["alias", "alias", "unalias", "unalias", "remove", "fn", "defined", "call", "ub"][r.below(9)];
         ops.push(json!({"op": op, "name": name}));
     }
     json!({"kind": "script", "ops": ops})
@@ -48,6 +48,7 @@ fn run_script_level(input: &Value) -> Option<Value> {
     use duckscript::types::runtime::Context;
     let mut model: BTreeMap<String, Kind> = BTreeMap::new();
     let mut fn_defined: Vec<String> = vec![];
+    let mut builtin_gone = false;
     let mut lines: Vec<String> = vec![];
     let mut expect: Vec<(String, Option<String>)> = vec![];
     for (i, op) in input["ops"].as_array()?.iter().enumerate() {
@@ -74,6 +75,19 @@ fn run_script_level(input: &Value) -> Option<Value> {
                 lines.push("end".to_string());
                 fn_defined.push(n.clone());
                 model.insert(n.clone(), Kind::Func(format!("f{}", i)));
+            }
+            "ub" => {
+                // an alias of a library command: unalias removes that one spelling, the command stays reachable under its
+                // name and its other aliases
+                let first = !builtin_gone;
+                builtin_gone = true;
+                lines.push(format!("{} = unalias array_add", rv));
+                expect.push((rv.clone(), Some(first.to_string())));
+                for (k, (q, want)) in [("array_push", "true"), ("std::collections::ArrayPush", "true"), ("array_put", "true"), ("array_add", "false")].iter().enumerate() {
+                    let v2 = format!("{}x{}", rv, k);
+                    lines.push(format!("{} = is_command_defined {}", v2, q));
+                    expect.push((v2, Some(want.to_string())));
+                }
             }
             "unalias" => {
                 lines.push(format!("{} = unalias {}", rv, n));
